@@ -67,8 +67,8 @@ SetErr(e, cond, name) == IF e = "none" /\ cond THEN name ELSE e
 Min(a, b) == IF a < b THEN a ELSE b
 
 \* ---- the allocator -------------------------------------------------------------------------------
-Fresh(h) == CHOOSE i \in 1..(Cardinality(DOMAIN h) + 1) : i \notin DOMAIN h /\ \A j \in 1..(i-1) : j \in DOMAIN h
-Alloc(m, cell) == LET a == Fresh(m.h) IN [h |-> (a :> cell) @@ m.h, e |-> m.e, a |-> a]
+Fresh(h) == Len(h) + 1              \* ids are never reused: the heap is a sequence of cells, released ones stay (dead)
+Alloc(m, cell) == [h |-> Append(m.h, cell), e |-> m.e, a |-> Fresh(m.h)]
 FreeM(m, a) == IF IsLive(m.h, a) THEN [h |-> [m.h EXCEPT ![a].live = FALSE], e |-> m.e]
                ELSE [h |-> m.h, e |-> SetErr(m.e, TRUE, "FreeNotLive")]
 
@@ -148,10 +148,6 @@ RECURSIVE TravUpTo(_, _, _)
 TravUpTo(os, h, i) == IF i = 0 THEN <<>> ELSE TravUpTo(os, h, i - 1) \o ObjPtrs(h, os[i])
 Trav(os, h) == TravUpTo(os, h, NObj)
 Range(sq) == {sq[i] : i \in 1..Len(sq)}
-CellPtrs(h) == UNION {{h[a].el[i].nm.p : i \in 1..Len(h[a].el)} : a \in DOMAIN h}
-\* cells nobody can name any more are dropped once they are dead (a live one nobody names is a leak and stays)
-Gc(h, os) == LET keep == {a \in DOMAIN h : h[a].live \/ a \in Range(Trav(os, h)) \/ a \in CellPtrs(h)}
-             IN [a \in keep |-> h[a]]
 
 \* ---- canonical projection (what the harness computes from the real structs) -------------------------------
 Canon(tr, p) == IF p <= 0 THEN p ELSE CHOOSE i \in 1..Len(tr) : tr[i] = p /\ \A j \in 1..(i-1) : tr[j] # p
@@ -165,19 +161,21 @@ PObj(tr, h, ob) ==
    dp |-> Canon(tr, ob.dp), dn |-> ob.dn, dl |-> IF ob.dp > 0 THEN B(IsLive(h, ob.dp)) ELSE 1,
    d |-> [i \in 1..NDimsSeen(h, ob) |-> LET el == h[ob.dp].el[i] IN [nm |-> PS(tr, h, el.nm), k |-> el.k, v |-> el.v]]]
 ProjOf(os, h) == LET tr == Trav(os, h) IN [o \in Objs |-> PObj(tr, h, os[o])]
-LeakCount(os, h) == Cardinality({a \in DOMAIN h : h[a].live /\ a \notin Range(Trav(os, h))})
-View == <<ProjOf(objs, heap), LeakCount(objs, heap), err>>
+LeakCount(os, h) == LET r == Range(Trav(os, h)) IN Cardinality({a \in DOMAIN h : h[a].live /\ a \notin r})
+\* depth is part of the view so that the bounded exploration is exact with any number of workers
+View == <<ProjOf(objs, heap), LeakCount(objs, heap), err, depth>>
 
 \* ---- actions ---------------------------------------------------------------------------------------------------
 Done(os, m, call, ret) ==
+  /\ depth < Depth                              \* all call sequences of at most Depth calls
   /\ objs' = os
-  /\ heap' = Gc(m.h, os)
+  /\ heap' = m.h
   /\ err' = m.e
   /\ lastAct' = [c |-> call, ret |-> ret]
   /\ depth' = depth + 1
   /\ hist' = (CASE HistMode = 0 -> hist
               [] HistMode = 1 -> Append(hist, call)
-              [] OTHER -> Append(hist, [c |-> call, ret |-> ret, post |-> ProjOf(os, Gc(m.h, os))]))
+              [] OTHER -> Append(hist, [c |-> call, ret |-> ret, post |-> ProjOf(os, m.h)]))
 M0 == [h |-> heap, e |-> err]
 
 \* storage_properties_init(out, first_frame_id, uri, metadata, pixel_scale, dimension_count)   [ids: f = px = o]
@@ -269,9 +267,7 @@ L_Borrow == \E o \in Objs, fld \in {1, 2}, k \in BorrowKinds : Borrow_(o, fld, k
 Init == /\ objs = [o \in Objs |-> ZeroObj] /\ heap = << >> /\ err = "none"
         /\ lastAct = [c |-> <<0, 0, 0, 0, 0, 0>>, ret |-> 1] /\ hist = << >> /\ depth = 0
 Next == \/ L_Init \/ L_SetUri \/ L_SetMeta \/ L_SetKeys \/ L_SetDim \/ L_SetDimBad \/ L_SetMs \/ L_Copy \/ L_Destroy \/ L_Borrow
-\* all call sequences of at most Depth calls
-BNext == depth < Depth /\ Next
-Spec == Init /\ [][BNext]_vars
+Spec == Init /\ [][Next]_vars
 
 \* ---- the property (C13) as invariants -----------------------------------------------------------------------------
 Tr == Trav(objs, heap)
